@@ -86,7 +86,7 @@ prop("C16", bounds=WATER_BOUNDS, cfg_limit={"quick": 5, "thorough": 12},
      outside=["initialisation-time behaviour: date parsing, leap-day planting dates, windows without seasons, catalogue-wide construction of Soil/Crop (pandas/str code)",
               "the claim is: no step of a run can raise from a state within INV for the enumerated switch values (ETadj 0/1, zero-height bunds, methods 0-5, water table, ...)"],
      budget_s={"quick": 1800, "thorough": 14400})
-prop("C17", bounds={"quick": "8 crops, continuous argument ranges (depletion -20..120 % of TAW=100, ET0 0.1..20, temperatures -30..60, time 0..400 d / 4000 GDD, CO2 250..2500)",
+prop("C17", bounds={"quick": "all 37 crops (CO2 factor: 5 WP/fsink classes), continuous argument ranges (depletion -20..120 % of TAW=100, ET0 0.1..20, temperatures -30..60, time 0..400 d / 4000 GDD, CO2 250..2500)",
                     "thorough": "all 37 crops"},
      outside=["CO2 factor monotonicity when both concentrations lie strictly between the reference (369.41) and 550 ppm: z3 and cvc5 return unknown on the mixed rational/exponential branch",
               "aeration stress coefficient"], budget_s={"quick": 900, "thorough": 7200})
